@@ -8,7 +8,7 @@ For every /tmp/mut_out/<Cxx>/<mN>/ (patch.diff [or patch_rebased.diff], demo.py,
   4. the stable baseline tests must still pass with the patch (tools/run_baseline.py);
   5. the worktree is removed.
 Confirmed changes are copied to /verif/seeded/<Cxx>-<mN>/ with meta.json.
-Usage: confirm_seeded.py [--no-suite] [Cxx/mN ...]"""
+Usage: confirm_seeded.py [--no-suite] [--src DIR] [--offset K] [Cxx/mN ...]   (--offset 2: a second round's m1, m2 are filed as m3, m4)"""
 import json
 import os
 import shutil
@@ -25,7 +25,18 @@ def sh(cmd, **kw):
 
 
 def main():
-    args = [a for a in sys.argv[1:] if not a.startswith('--')]
+    argv = sys.argv[1:]
+    global SRC  # pylint: disable=global-statement
+    offset = 0
+    if '--src' in argv:
+        i = argv.index('--src')
+        SRC = argv[i + 1]
+        del argv[i:i + 2]
+    if '--offset' in argv:
+        i = argv.index('--offset')
+        offset = int(argv[i + 1])
+        del argv[i:i + 2]
+    args = [a for a in argv if not a.startswith('--')]
     suite = '--no-suite' not in sys.argv
     items = args or sorted(f'{c}/{m}' for c in os.listdir(SRC) if c.startswith('C') for m in os.listdir(os.path.join(SRC, c))
                            if m.startswith('m') and os.path.isdir(os.path.join(SRC, c, m)))
@@ -68,6 +79,8 @@ def main():
             shutil.rmtree(WT, ignore_errors=True)
         print(json.dumps(rec)[:600], flush=True)
         if rec.get('confirmed'):
+            if offset:
+                name = f'm{int(name[1:]) + offset}'
             d = os.path.join(DST, f'{prop}-{name}')
             os.makedirs(d, exist_ok=True)
             shutil.copy(patch, os.path.join(d, 'patch.diff'))
